@@ -11,7 +11,7 @@
    decisions come from Gen/C22.v, regenerated from handler.go on every run. *)
 From Coq Require Import ZArith List Bool String.
 Import ListNotations.
-From Verif Require Import Lib.Corr Gen.C22 Model.C22 Proofs.C22.
+From Verif Require Import Lib.Corr Gen.C22 Model.C22 Proofs.C22 Proofs.C22_dist Proofs.C22_send.
 Open Scope Z_scope.
 
 (* canReturnEarly and the decisions of fanoutForward's response loop still have
@@ -84,11 +84,81 @@ Theorem C22_request_pred : forall rf rep place ws, 1 <= rf -> 0 <= rep ->
 Proof. exact handle_pred. Qed.
 Print Assumptions C22_request_pred.
 
+(* ---- where the responses come from ----
+   distributeTimeseriesToReplicas: the groups have distinct (node, replica)
+   keys, the keys are exactly the placements of the series on the request's
+   replicas, and every group carries, in request order, the series the hashring
+   places there. *)
+Theorem C22_distribution : forall place replicas, NoDup replicas ->
+  NoDup (keys (distribute place replicas))
+  /\ (forall d, In d (keys (distribute place replicas)) <->
+        exists s r, (s < List.length place)%nat /\ In r replicas /\ d = (placed place s r, r))
+  /\ (forall node r, In (node, r) (keys (distribute place replicas)) ->
+        group_ids (distribute place replicas) (node, r) = Some (ids_of place node r)).
+Proof.
+  intros place replicas H. split; [apply distribute_keys_nodup|]. split; [apply distribute_keys_in|].
+  intros node r. apply distribute_group_ids. exact H.
+Qed.
+Print Assumptions C22_distribution.
+
+(* The order of the bookkeeping calls (wg.Add / wg.Done / response sends / pool
+   submission / wg.Wait / close) in sendWrites, tryWrite, sendWrite,
+   prepareRemoteWrite, buildWork, RemoteWriteAsync, TryRemoteWriteAsync and the
+   sender goroutine of fanoutForward is the modelled one. *)
+Theorem C22_send_protocol_shape : send_shape_ok = true.
+Proof. exact send_shape_holds. Qed.
+Print Assumptions C22_send_protocol_shape.
+
+(* Every interleaving of the sender (first non-blocking pass with connection
+   errors / accepted / rejected submissions, second blocking pass, wg.Wait,
+   close) with the pool workers (response, then completion callback): the
+   WaitGroup counter never goes negative, nothing is sent on the closed
+   channel, the channel never holds more than one response per destination
+   (its capacity), and when it is closed it holds exactly one response per
+   destination. *)
+Theorem C22_exactly_one_response_per_write : forall D ls s, srun (sinit D) ls = Some s ->
+  sbad s = false /\ 0 <= swg s
+  /\ (List.length (schan s) <= List.length D)%nat
+  /\ (sph s = PClosed -> Permutation.Permutation (schan s) D).
+Proof. exact sender_safe. Qed.
+Print Assumptions C22_exactly_one_response_per_write.
+
+Theorem C22_sender_can_complete : forall D, exists ls s, srun (sinit D) ls = Some s /\ sph s = PClosed.
+Proof. exact closing_run_exists. Qed.
+Print Assumptions C22_sender_can_complete.
+
+(* Hence the hypothesis of the theorems above is a consequence of the model:
+   responses that are the channel content of a complete sender run over the
+   distribution's groups give every series one response per replica ... *)
+Theorem C22_one_response_per_replica : forall rf rep place ws ls s, 0 <= rf ->
+  srun (sinit (keys (distribute place (replicas_of rf rep)))) ls = Some s ->
+  sph s = PClosed -> schan s = map write_dest ws ->
+  forall x, (x < List.length place)%nat -> responses_of x (resps_of place ws) = n_replicas rf rep.
+Proof. exact sender_gives_one_response_per_replica. Qed.
+Print Assumptions C22_one_response_per_replica.
+
+(* ... and the whole-request theorem holds without that hypothesis. *)
+Theorem C22_request_pred_from_sender : forall rf rep place ws ls s, 1 <= rf -> 0 <= rep ->
+  srun (sinit (keys (distribute place (replicas_of rf rep)))) ls = Some s ->
+  sph s = PClosed -> schan s = map write_dest ws ->
+  exists o, handle rf rep place ws = Some o
+    /\ (o = OAck -> rep <= rf ->
+        quorum_everywhere (List.length place) (success_threshold rf rep) (resps_of place ws) = true
+        /\ exists k, (k <= List.length ws)%nat /\ forall d obs obsr, (k <= d)%nat ->
+             pred_ok (CAck rf rep place ws obs obsr 200 d) = true)
+    /\ (o = OFail -> quorum_everywhere (List.length place) (success_threshold rf rep) (resps_of place ws) = false).
+Proof. exact handle_pred_sender. Qed.
+Print Assumptions C22_request_pred_from_sender.
+
 (* Non-vacuity: rf 3 (q 2), two series on 4 nodes; series 1 is stored once only -> fails;
    with its second replica succeeding -> acknowledged, and each series got 3 responses. *)
 Example C22_nonvacuous :
   let place := [[0;1;2];[1;2;3]]%nat in
   handle 3 0 place [(0,0,KOk);(1,0,KOk);(1,1,KConflict);(2,1,KUnavailGrpc);(2,2,KOk);(3,2,KOther)]%nat = Some OFail
   /\ handle 3 0 place [(0,0,KOk);(1,0,KOk);(1,1,KConflict);(2,1,KOk);(2,2,KOk);(3,2,KOther)]%nat = Some OAck
-  /\ responses_of 1%nat (resps_of place [(0,0,KOk);(1,0,KOk);(1,1,KConflict);(2,1,KOk);(2,2,KOk);(3,2,KOther)]%nat) = 3.
+  /\ responses_of 1%nat (resps_of place [(0,0,KOk);(1,0,KOk);(1,1,KConflict);(2,1,KOk);(2,2,KOk);(3,2,KOther)]%nat) = 3
+  /\ distribute place (replicas_of 3 0) = [((0,0),[0]); ((1,1),[0]); ((2,2),[0]); ((1,0),[1]); ((2,1),[1]); ((3,2),[1])]%nat
+  /\ option_map schan (srun (sinit [(0,0);(1,1);(2,2)]%nat)
+        [S1Accept; S1Reject; S1ConnFail; S1End; SWorkSend (0,0)%nat; S2Accept; S2End; SWorkSend (1,1)%nat; SWorkDone (1,1)%nat; SWorkDone (0,0)%nat; SClose])
+      = Some [(2,2);(0,0);(1,1)]%nat.
 Proof. vm_compute. repeat split; reflexivity. Qed.
